@@ -99,6 +99,7 @@ static std::string run_case(const CaseFile &c) {
             int wantrc = (store == 0 || store == 3) ? CIF_OK : CIF_AMBIGUOUS_ITEM;
             if (rc != wantrc) { msg = std::string("get_value returned ") + cm::code_name(rc) + ", expected " + cm::code_name(wantrc); goto done; }
             Value r; CK(cm::from_cif(got, r)); reads.push_back(r);
+            { std::string ne = cm::numbers_consistent(got, "value read back by cif_container_get_value"); if (!ne.empty()) { msg = ne; goto done; } }
             if (model.k == Value::NUMB && numeric_sig(got) != numsig) { msg = "numeric value/su differ: stored " + numsig + " read " + numeric_sig(got); goto done; }
             // wreck the copy we were given; must not affect the stored value
             CK(cif_value_copy_char(got, u"wrecked-copy"));
@@ -118,6 +119,7 @@ static std::string run_case(const CaseFile &c) {
                 cif_value_tp *m = nullptr; Value r;
                 CK(cif_packet_get_item(pkt, N_X, &m));
                 CK(cm::from_cif(m, r)); reads.push_back(r);
+                { std::string ne = cm::numbers_consistent(m, "value delivered by packet iteration"); if (!ne.empty()) { msg = ne; goto done; } }
                 if (model.k == Value::NUMB && numeric_sig(m) != numsig) { msg = "numeric value/su differ: stored " + numsig + " read " + numeric_sig(m); goto done; }
                 CK(cif_value_init(m, CIF_NA_KIND));   // modifying the delivered packet must not touch the store
             }
